@@ -397,8 +397,7 @@ def run_C09(ctx):
                 "TLC: the C07/C08 syntax universe (every parent/child/position triple, value leaves only programs / JSON can build, "
                 "odd attribute names, annotations over the boundary strings, arithmetic groupings), policy sets under every id pattern, "
                 "and the expression universe; each as built from the AST, as reparsed from its text and as decoded from its JSON. The "
-                "harness encodes the subject with the real MarshalJSON, decodes it with the real UnmarshalJSON, re-encodes (bytes must "
-                "repeat), takes the detour JSON -> text -> JSON, and authorizes every variant. Trace_PolicyJson: the specification's "
+                "harness encodes the subject with the real MarshalJSON, decodes it with the real UnmarshalJSON, takes the detour JSON -> text -> JSON, and authorizes every variant. Trace_PolicyJson: the specification's "
                 "reading of the RECORDED document must be the subject's AST (catches encoder and decoder wrong in the same way); "
                 "the decoded policy must be SameAst; the detour must equal what the text alone denotes; all variants have the same "
                 "outcome, equal to CedarPolicy!Outcome for random policies under random environments; policy-set JSON preserves ids "
